@@ -98,3 +98,46 @@ Definition scan_ok (c : scan_case) : bool :=
   (s_total (l_supply (sc_state c)) <=? sc_prev_total c + sc_mint_bound c).
 Definition scan_violations (cs : list scan_case) : list N := idx_filter (fun c => negb (scan_ok c)) 0 cs.
 Definition scan_mismatches := scan_violations.
+
+(* ---- the same observations, judged per property (the checks of C04 / C07 / C12 / C20 share the harness) *)
+Definition sel (p : N) (c04 c07 c12 c20 : bool) : bool :=
+  if p =? 4 then c04 else if p =? 7 then c07 else if p =? 12 then c12 else if p =? 20 then c20 else c04 && c07 && c12 && c20.
+Definition tx_ok_for (p : N) (c : tx_case) : bool :=
+  sel p
+    ((negb (conservation_ok (t_pre c)) || conservation_ok (t_post c)) &&
+     (if t_ok c then match t_msg c with
+                     | MDaoTransfer _ x true => s_total (l_supply (t_post c)) =? s_total (l_supply (t_pre c)) + x
+                     | _ => s_total (l_supply (t_post c)) =? s_total (l_supply (t_pre c))
+                     end
+      else true))
+    (if t_ok c then true else lstate_eqb (t_pre c) (t_post c))
+    (negb (staking_ok (t_pre c)) || staking_ok (t_post c))
+    (negb (escrow_ok (t_pre c)) || escrow_ok (t_post c)).
+Definition tx_violations_for (p : N) (cs : list tx_case) : list N := idx_filter (fun c => negb (tx_ok_for p c)) 0 cs.
+Definition fail_violations_for (p : N) (cs : list fail_case) : list N :=
+  if p =? 7 then fail_violations cs else [].
+Definition scan_ok_for (p : N) (c : scan_case) : bool :=
+  sel p
+    (conservation_ok (sc_state c) && (s_total (l_supply (sc_state c)) <=? sc_prev_total c + sc_mint_bound c))
+    true
+    (staking_ok (sc_state c))
+    (escrow_ok (sc_state c)).
+Definition scan_violations_for (p : N) (cs : list scan_case) : list N := idx_filter (fun c => negb (scan_ok_for p c)) 0 cs.
+
+(* ---- slash cases: the real SlashValidator on a scanned state (protocol v2: committee-scoped, capped per block) *)
+Record sl_case := mkSl { sl_pre : lstate; sl_addr : N; sl_chain : N; sl_percent : N; sl_already : N; sl_err : bool; sl_post : lstate }.
+Definition sl_agrees (c : sl_case) : bool :=
+  match slash_validator (sl_addr c) (sl_chain c) (sl_percent c) (sl_already c) (sl_pre c) with
+  | LOk post => negb (sl_err c) && lstate_eqb post (sl_post c)
+  | LErr => sl_err c
+  end.
+Definition sl_mismatches (cs : list sl_case) : list N := idx_filter (fun c => negb (sl_agrees c)) 0 cs.
+Definition sl_ok_for (p : N) (c : sl_case) : bool :=
+  sel p
+    ((negb (conservation_ok (sl_pre c)) || conservation_ok (sl_post c)) &&
+     (s_total (l_supply (sl_post c)) <=? s_total (l_supply (sl_pre c))))
+    true
+    (* a slash of a committee member keeps the staking records consistent and never fails (C12) *)
+    ((negb (staking_ok (sl_pre c)) || staking_ok (sl_post c)) && negb (sl_err c))
+    (negb (escrow_ok (sl_pre c)) || escrow_ok (sl_post c)).
+Definition sl_violations_for (p : N) (cs : list sl_case) : list N := idx_filter (fun c => negb (sl_ok_for p c)) 0 cs.
